@@ -853,6 +853,10 @@ func (c *rowCountClient) Return(e *Engine, st *State, ret *ast.ReturnStmt) {
 	if g := st.Get(intKey); g != nil && g.HasEq && g.Eq == "true" {
 		isInt = true
 	}
+	// a nil pointer of the literal's type is no literal (the defensive `ok && lit != nil`)
+	if g := st.Get("assert(" + xk.Key + "," + c.litT + ")"); g != nil && g.Nil == 1 {
+		notLit = true
+	}
 	ok := notLit || isInt
 	e.Site("C13/rowcount", key, ret, ok, "row count is not a literal, or is a literal for which IsInteger() holds")
 	if !ok {
